@@ -80,7 +80,42 @@ def riswap (r : A) : M R :=
 /-- `cphase(r)` -/
 def cphase (r : A) : M R := diag [1, 1, 1, E.cis r]
 
+/-- `Y**t` block: `g [[c, -s], [s, c]]`, `g = e^{iπt/2}` -/
+def yblock (t : A) : M R :=
+  let c := E.cosπ (t * E.halfA); let sn := E.sinπ (t * E.halfA); let g := E.ph (t * E.halfA)
+  [[g * c, -(g * sn)], [g * sn, g * c]]
+
+/-- `CYPowGate(exponent=t, global_shift=s)`, `CCYPowGate` -/
+def cypow (t s : A) : M R := smul (E.ph (t * s)) (blockBottomRight 4 (yblock E t))
+def ccypow (t s : A) : M R := smul (E.ph (t * s)) (blockBottomRight 8 (yblock E t))
+
+/-- `ParallelGate(sub, n)`: `sub ⊗ … ⊗ sub` -/
+def parallel (sub : M R) (n : Nat) : M R := kronAll (List.replicate n sub)
+
+def madd2 (a b : M R) : M R := List.zipWith (List.zipWith (· + ·)) a b
+
+/-- projector on the -1 (`invert = false`) or +1 (`invert = true`) eigenvector of a Pauli -/
+def pauliProj (k : Nat) (invert : Bool) : M R :=
+  let sgn : R := if invert then E.half else -E.half
+  madd2 (smul E.half (eye 2)) (smul sgn (match k with | 1 => pauliX | 2 => pauliY E.toEnv | _ => pauliZ))
+
+/-- `PauliInteractionGate(p0, invert0, p1, invert1, exponent=t)`: phases the product of the two conditions by `e^{iπt}`,
+`I + (e^{iπt} - 1) Π₀ ⊗ Π₁` (`CZ` is `(Z, False, Z, False)`) -/
+def pauliInteraction (p0 : Nat) (i0 : Bool) (p1 : Nat) (i1 : Bool) (t : A) : M R :=
+  madd2 (eye 4) (smul (E.ph t - 1) (kron (pauliProj E p0 i0) (pauliProj E p1 i1)))
+
+/-- first column of `UniformSuperpositionGate(m, n)`: `M^{-1/2} Σ_{j<M} |j⟩` -/
+def uniformSuperposition (m n : Nat) : List R :=
+  (List.range (2 ^ n)).map (fun j => if j < m then E.sqrt (E.ratA 1 m) else 0)
+
 /-! ### channels -/
+/-- `StatePreparationChannel(ψ)`: `M_k = |ψ⟩⟨k|` -/
+def statePreparation (psi : List R) : List (M R) :=
+  (List.range psi.length).map (fun k => psi.map (fun a => (List.range psi.length).map (fun j => if j = k then a else 0)))
+
+/-- `MixedUnitaryChannel([(p, U), …])`: `√p U` -/
+def mixedUnitary (terms : List (A × M R)) : List (M R) := terms.map (fun (p, u) => smul (E.sqrt p) u)
+
 def pauliOf (k : Nat) : M R :=
   match k with
   | 0 => eye 2
